@@ -79,6 +79,11 @@ func (o *Output) Bytes() []byte {
 
 	h := make([]byte, 0)
 	h = append(h, b...)
+	if o.LockingScript == nil {
+		// an output that was given no script serialises like one with an empty script,
+		// as an input without an unlocking script does
+		return append(h, VarInt(0).Bytes()...)
+	}
 	h = append(h, VarInt(uint64(len(*o.LockingScript))).Bytes()...)
 	h = append(h, *o.LockingScript...)
 
@@ -94,6 +99,9 @@ func (o *Output) BytesForSigHash() []byte {
 	binary.LittleEndian.PutUint64(satoshis, o.Satoshis)
 	buf = append(buf, satoshis...)
 
+	if o.LockingScript == nil {
+		return append(buf, VarInt(0).Bytes()...)
+	}
 	buf = append(buf, VarInt(uint64(len(*o.LockingScript))).Bytes()...)
 	buf = append(buf, *o.LockingScript...)
 
